@@ -250,6 +250,66 @@ theorem pread_pread (f : File) (off len o n : Nat) (h : o + n ≤ len) :
     simp [hi, this, Nat.add_assoc]
   · simp [hi]
 
+/-- pointwise form of an in-file write (no length change, no zero fill) -/
+theorem getElem?_pwrite_of_le (f : File) (off : Nat) (d : Bytes) (i : Nat) (h : off + d.length ≤ f.length) :
+    (pwrite f off d)[i]? = if off ≤ i ∧ i < off + d.length then d[i - off]? else f[i]? := by
+  rw [getElem?_pwrite]
+  by_cases h0 : d.length = 0
+  · have : ¬ (off ≤ i ∧ i < off + d.length) := by omega
+    rw [if_pos h0, if_neg this]
+  · by_cases h1 : i < off
+    · have a : i < f.length := by omega
+      have b : ¬ (off ≤ i ∧ i < off + d.length) := by omega
+      simp [h0, h1, a, b]
+    · by_cases h2 : i < off + d.length
+      · have b : off ≤ i ∧ i < off + d.length := by omega
+        simp [h0, h1, h2]
+      · have b : ¬ (off ≤ i ∧ i < off + d.length) := by omega
+        simp [h0, h1, h2, b]
+
+/-- a read disjoint from the written range is unchanged (both directions in one lemma) -/
+theorem pread_pwrite_disj (f : File) (off : Nat) (d : Bytes) (o n : Nat)
+    (h : (o + n ≤ off ∧ o + n ≤ f.length) ∨ off + d.length ≤ o) :
+    pread (pwrite f off d) o n = pread f o n := by
+  rcases h with ⟨h1, h2⟩ | h
+  · exact pread_pwrite_lt f off d o n h1 h2
+  · exact pread_pwrite_gt f off d o n h
+
+/-- reading a sub-range of what was just written -/
+theorem pread_pwrite_sub (f : File) (off : Nat) (d : Bytes) (o n : Nat)
+    (h1 : off ≤ o) (h2 : o + n ≤ off + d.length) :
+    pread (pwrite f off d) o n = pread d (o - off) n := by
+  apply List.ext_getElem?; intro i
+  rw [getElem?_pread, getElem?_pread, getElem?_pwrite]
+  by_cases hi : i < n
+  · have a : d.length ≠ 0 := by omega
+    have b : ¬ (o + i < off) := by omega
+    have c : o + i < off + d.length := by omega
+    have e : o + i - off = o - off + i := by omega
+    simp [hi, a, b, c, e]
+  · simp [hi]
+
+theorem pread_of_length_le (f : File) (off len : Nat) (h : f.length ≤ off) : pread f off len = [] := by
+  simp [pread, List.drop_eq_nil_of_le h]
+
+theorem pread_zeros (n o m : Nat) (h : o + m ≤ n) : pread (zeros n) o m = zeros m := by
+  apply List.ext_getElem?; intro i
+  rw [getElem?_pread, getElem?_zeros, getElem?_zeros]
+  by_cases hi : i < m
+  · have : o + i < n := by omega
+    simp [hi, this]
+  · simp [hi]
+
+theorem pread_append_of_le (a b : Bytes) (off len : Nat) (h : a.length ≤ off) :
+    pread (a ++ b) off len = pread b (off - a.length) len := by
+  simp [pread, List.drop_append_of_le_length h, List.drop_eq_nil_of_le h]
+
+theorem pread_append_prefix (a b : Bytes) (len : Nat) (h : len = a.length) :
+    pread (a ++ b) 0 len = a := by
+  subst h; simp [pread]
+
+theorem pread_zero_eq_take (f : File) (n : Nat) : pread f 0 n = f.take n := by simp [pread]
+
 /-! ### big-endian fixed-width integers (`struct.pack(">L", n)`, `">Q"`) -/
 
 /-- `n` as `w` big-endian bytes (value taken mod `256^w`; Python raises `struct.error` instead when
